@@ -2,7 +2,7 @@
    (ANone = no method and no _default; ARet v; AFailed = FailedSemantics; ARaise x = any other exception). *)
 From Coq Require Import List NArith Bool.
 From TatsuV Require Import Base.PyStr Engine.Value Engine.Syntax Engine.Input Engine.Engine Engine.Calls
-     Engine.SemProof.
+     Engine.SemProof Engine.RaiseProof.
 Import ListNotations.
 
 Section C06.
@@ -58,9 +58,33 @@ Proof. exact (rule_call_failed_semantics upper ic ec lineat). Qed.
 Theorem C06_nomemo_never_stored : forall rl st k o, r_nomemo rl = true -> memoize ec rl st k o = st.
 Proof. exact (nomemo_never_stored ec). Qed.
 
+(* any other exception reaches the caller of parse() unchanged - through sequences, choices, optionals, closures and
+   joins, lookaheads, skip-to, the memo, the seeds and the seed-growing loop of left recursion: for every grammar,
+   text, configuration, action oracle and fuel.  [raised] is the ghost log of what actions raised (first theorem
+   below: it is written exactly when an action raises); whatever is in it IS the result, and nothing else was raised *)
+Theorem C06_raised_log_is_exact : forall act (ev : @ev_t gstate) rl r k st v fb st2 e,
+  lookup (memos st) k = None ->
+  ev (r_exp rl) (push (newf (fst k))) (if left_recursion ec then memoize ec rl st k OGuard else st) = (Ok v fb, st2) ->
+  r_isname rl && is_keyword upper ic ec (fold fb) = false ->
+  act r (fold fb) = ARaise e ->
+  rule_call upper ic ec act lineat ev rl r k st = (RFatal (Foreign e), log_raise (log_body st2 r) (Foreign e)).
+Proof. intros act. exact (rule_call_raises upper ic ec act lineat). Qed.
+
+Theorem C06_foreign_exception_reaches_caller : forall act n start r st,
+  parse_with text re_at isalnum isalpha lower upper ic unsafe rules ec act lineat n start = (r, st) ->
+  raised st = [] \/ exists x, raised st = [x] /\ r = Fatal x.
+Proof. intros act. exact (raise_reaches_caller text re_at isalnum isalpha lower upper ic unsafe rules ec act lineat). Qed.
+
 End C06.
+
+(* a concrete instance: the action of a rule called inside a lookahead inside a closure inside an optional raises *)
+Example C06_foreign_exception_witness : fst x_run = Fatal (Foreign 7) /\ raised (snd x_run) = [Foreign 7].
+Proof. exact raise_witness. Qed.
 Print Assumptions C06_action_gets_rhs_ast_and_replaces_it.
 Print Assumptions C06_identity_is_no_semantics.
 Print Assumptions C06_actions_equal_up_to_identity.
 Print Assumptions C06_failed_semantics_memoised_as_failure.
 Print Assumptions C06_nomemo_never_stored.
+Print Assumptions C06_raised_log_is_exact.
+Print Assumptions C06_foreign_exception_reaches_caller.
+Print Assumptions C06_foreign_exception_witness.
